@@ -243,3 +243,62 @@ SPECS["C12"] = (
   ("", "RtpExamples.v", "RtpEx.xtn6904_one_byte"),
   ("REFUTED for cryptex together with RFC 6904 (known finding cryptex-with-6904:protect)", "RtpSpecProofs.v", "protect_alias_cryptex_xtn_refuted")],
  "")
+
+# ---- the AES-GCM (RFC 7714) paths: theorems about the AEAD functions of Aead.v (what the driver runs in GCM-capable builds) ----
+def _ext(pid, imports_extra, items, header_extra):
+    h, imp, it, tail = SPECS[pid]
+    SPECS[pid] = (h + header_extra, imp + "\nFrom Srtp Require Import " + imports_extra + ".", it + items, tail)
+
+_AEAD_NOTE = ("\n   AES-GCM: the theorems named *_aead are about the models of srtp_protect_aead / srtp_unprotect_aead / srtp_protect_rtcp_aead /\n"
+              "   srtp_unprotect_rtcp_aead (Aead.v over Crypto/GCM.v), which the correspondence check runs against libsrtp built with OpenSSL; in the\n"
+              "   internal-crypto configuration the dispatchers reduce to the non-AEAD functions (AeadProofs.v).")
+_ext("C01", "Aead AeadProofs AeadRoundTripRtp AeadCryptexRtp AeadCryptexInplace",
+ [("AES-GCM: without a GCM back end the driver's dispatcher IS srtp_protect's non-AEAD model", "AeadProofs.v", "protect_any_internal"),
+  ("", "AeadProofs.v", "unprotect_any_internal"),
+  ("AES-GCM: what was sealed opens to the plaintext (any key, IV, AAD, tag length up to 16)", "AeadProofs.v", "gcm_open_seal"),
+  ("AES-GCM: what a successful srtp_protect_aead emits (header with RFC 6904 | GCM ciphertext | tag | MKI), any alias mode", "AeadRoundTripRtp.v", "protect_aead_wire"),
+  ("AES-GCM round trip, streams without cryptex (with or without RFC 6904), any alias mode on either side", "AeadRoundTripRtp.v", "rtp_aead_round_trip"),
+  ("", "AeadRoundTripRtp.v", "rtp_aead_protect_unprotect"),
+  ("AES-GCM with cryptex in place, any CSRC count", "AeadCryptexInplace.v", "rtp_aead_cryptex_round_trip"),
+  ("AES-GCM: the documented refusal (cryptex in use, out of place, CSRCs) on both sides", "AeadCryptexRtp.v", "protect_aead_cryptex_refusal"),
+  ("", "AeadCryptexRtp.v", "unprotect_aead_cryptex_refusal"),
+  ("AES-GCM evaluated examples: plain, RFC 6904 (both forms, MKI), empty payload, cryptex in place with CSRCs, cryptex without CSRCs in all four alias combinations", "AeadRoundTripRtp.v", "AeadRtpExample.gcm_plain"),
+  ("", "AeadRoundTripRtp.v", "AeadRtpExample.gcm_xtn_one_byte_mki"),
+  ("", "AeadRoundTripRtp.v", "AeadRtpExample.gcm_cryptex_inplace_csrc"),
+  ("", "AeadRoundTripRtp.v", "AeadRtpExample.gcm_cryptex_no_csrc")], _AEAD_NOTE)
+_ext("C02", "Aead AeadProofs AeadRoundTripRtcp",
+ [("AES-GCM: without a GCM back end the dispatcher IS the non-AEAD model", "AeadProofs.v", "protect_rtcp_any_internal"),
+  ("", "AeadProofs.v", "unprotect_rtcp_any_internal"),
+  ("AES-GCM SRTCP: what srtp_protect_rtcp_aead emits (header | ciphertext or plaintext | tag | E+index | MKI; RFC 7714 section 9)", "AeadRoundTripRtcp.v", "protect_rtcp_aead_wire"),
+  ("AES-GCM SRTCP round trip, encrypted and unencrypted SRTCP, MKI, any alias mode on either side", "AeadRoundTripRtcp.v", "rtcp_aead_round_trip"),
+  ("", "AeadRoundTripRtcp.v", "rtcp_aead_protect_unprotect"),
+  ("evaluated", "AeadRoundTripRtcp.v", "AeadExample.g_unprotect_gives_pkt")], _AEAD_NOTE)
+_ext("C04", "Aead AeadProofs AeadRoundTripRtcp AeadRoundTripRtp",
+ [("AES-GCM SRTP: accepted exactly when GCM verifies (key, IV from salt / SSRC / estimated index, AAD = every octet before the ciphertext, ciphertext, tag)", "AeadRoundTripRtp.v", "unprotect_aead_accept_iff"),
+  ("... and the packet is exactly AAD ++ ciphertext ++ tag ++ MKI: every header octet is authenticated", "AeadRoundTripRtp.v", "rtp_aead_rx_parts_cover"),
+  ("AES-GCM SRTCP: the same, with the trailer (E bit and index) in the AAD", "AeadRoundTripRtcp.v", "unprotect_rtcp_aead_accept_iff"),
+  ("", "AeadRoundTripRtcp.v", "rtcp_aead_rx_parts_cover"),
+  ("evaluated: flipped header / payload octets are refused", "AeadRoundTripRtp.v", "AeadRtpExample.gcm_tamper_refused")], _AEAD_NOTE)
+_ext("C10", "Aead AeadBoundsRtp AeadBoundsRtcp",
+ [("AES-GCM: srtp_protect_aead never accesses outside the buffers (incl. RFC 6904 walk, cryptex shuffle, MKI write)", "AeadBoundsRtp.v", "protect_aead_no_oob"),
+  ("AES-GCM: srtp_unprotect_aead, unconditional after the two fixes the proof attempt led to (cryptex shuffle undone before the RFC 6904 walk; extension must fit the decrypted packet)", "AeadBoundsRtp.v", "unprotect_aead_no_oob"),
+  ("... the two former witnesses, now safe", "AeadBoundsRtp.v", "unprotect_aead_old_witness_safe"),
+  ("", "AeadBoundsRtp.v", "unprotect_aead_overlong_extension_refused"),
+  ("AES-GCM SRTCP", "AeadBoundsRtcp.v", "protect_rtcp_aead_no_oob"),
+  ("", "AeadBoundsRtcp.v", "unprotect_rtcp_aead_no_oob")], _AEAD_NOTE)
+_ext("C11", "Aead AeadBoundsRtp AeadBoundsRtcp",
+ [("AES-GCM: output length = input + tag + MKI, within capacity", "AeadBoundsRtp.v", "protect_aead_length"),
+  ("", "AeadBoundsRtp.v", "protect_aead_small_buffer_refused"),
+  ("", "AeadBoundsRtp.v", "unprotect_aead_length"),
+  ("AES-GCM SRTCP", "AeadBoundsRtcp.v", "protect_rtcp_aead_length"),
+  ("", "AeadBoundsRtcp.v", "protect_rtcp_aead_small_buffer_status"),
+  ("", "AeadBoundsRtcp.v", "unprotect_rtcp_aead_length"),
+  ("nothing at or beyond the RETURNED length is written (stronger than the capacity bound; the unencrypted-SRTCP copy used to violate it)", "AeadBoundsRtcp.v", "protect_rtcp_aead_writes_below_length"),
+  ("", "AeadBoundsRtcp.v", "unprotect_rtcp_aead_writes_below_length")], _AEAD_NOTE)
+_ext("C12", "Aead AeadRoundTripRtcp AeadRoundTripRtp",
+ [("AES-GCM: srtp_unprotect_aead refines a pure function for every input (streams without cryptex)", "AeadRoundTripRtp.v", "unprotect_aead_refines"),
+  ("", "AeadRoundTripRtp.v", "unprotect_aead_alias_independent"),
+  ("AES-GCM SRTCP", "AeadRoundTripRtcp.v", "unprotect_rtcp_aead_refines"),
+  ("", "AeadRoundTripRtcp.v", "unprotect_rtcp_aead_alias_independent"),
+  ("senders: the wire image does not depend on the alias mode or the prefill", "AeadRoundTripRtp.v", "protect_aead_wire"),
+  ("", "AeadRoundTripRtcp.v", "protect_rtcp_aead_wire")], _AEAD_NOTE)
